@@ -4,8 +4,14 @@ from ._sched_common import LEVEL, ASSUMPTIONS, BUDGET, make_run
 RULE = ('history generator of C01 biased to identity groups (count 0-6; grow, shrink, shrink to zero, delete, '
         're-create) under capacity pressure; oracle after every cycle per group: identities of placed instances '
         'distinct and < count, every placed member holds one, unplaced members hold none, available+held == '
-        'range(count). Non-trivial: group churn or a group member evicted/removed in the history.')
-REQUIRED_REACH = {'*': ['evictions', 'tracker_rejected']}
+        'range(count). In the Master-level histories the STORED placement is examined before every write of every '
+        'publication: no identity is recorded for two instances of one group (a successor restores both). Every 8th case '
+        'runs the real Master.run_loop() on two threads (vf/master/realloop.py, see C09) with identity groups resized / '
+        'squeezed by the operator at the joints of the start-up sequence, while the master is busy with a batch of '
+        'events, and across a second master; at idle no placed member holds an identity outside the configured range '
+        'or one held twice. Non-trivial: group churn or a group member evicted/removed in the history.')
+REQUIRED_REACH = {'*': ['evictions', 'tracker_rejected', 'stored_identities_checked_at_cut', 'real_loop_cases',
+                        'real_loop_identity_group_resized', 'real_loop_second_master_started']}
 
 
 def _tweak(pf, rng):
